@@ -387,6 +387,9 @@ impl PublishBuilder {
             // handle client receive maximum, send window is checked
             // at the time packet gets encoded
             let fut = Either::Left(async move {
+                if self.shared.is_closed() {
+                    return Err(SendPacketError::Disconnected);
+                }
                 if let Some(rx) = self.shared.wait_readiness() {
                     Waiter::new(&self.shared, rx).await?;
                 }
